@@ -362,6 +362,12 @@ func GenSpec(t *rapid.T, o Opts) *Spec {
 			}
 		}
 	}
+	if o.ModeActs && nModes > 0 && nModes < 10 && ri(t, 0, 11, "emptymode") == 0 {
+		// a declared mode without any rule (nothing refers to it): it still takes a mode index,
+		// somewhere in the middle of the name order
+		k := ri(t, 0, nModes-1, "emptyafter")
+		s.Modes = append(s.Modes, &Mode{Name: fmt.Sprintf("Md%ca", 'a'+rune(k))})
+	}
 	s.Style = ri(t, 0, 1, "style")
 	if ri(t, 0, 4, "ws-style") == 0 {
 		s.Style |= ri(t, 1, 3, "ws-bits") << 1
